@@ -1,9 +1,10 @@
 From Coq Require Import Extraction ExtrOcamlBasic.
-From SqfsV Require Import C07.Res C07.GenC07 C07.HardLinkModel C07.NumModel C07.TarModel C07.TextModel.
+From SqfsV Require Import C07.Res C07.GenC07 C07.HardLinkModel C07.NumModel C07.TarModel C07.TextModel C07.XattrFileModel.
 Extraction "c07_model.ml"
   fs_init add_generic resolve_link resolve_all resolve_all_old max_hops_of
   read_number parse parse_int base64_decode hex_decode urldecode strtol10
   read_header tar_walk_all
   split_line trim cstr_at sort_line xattr_decode xattr_line
+  xattr_open_gen xattr_open_close pat_path
   e_quote e_escape z_SPLIT_LINE_UNMATCHED_QUOTE z_SPLIT_LINE_ESCAPE
   c_SQFS_BLK_DONT_COMPRESS c_SQFS_BLK_DONT_FRAGMENT c_SQFS_BLK_DONT_DEDUPLICATE c_SQFS_BLK_IGNORE_SPARSE.
